@@ -28,6 +28,8 @@ pub const NOFLAGS: Flags = Flags {
     upgrade: None,
 };
 pub static mut FLAGS: Flags = NOFLAGS;
+/// serde_json error category of the malformed message (constant of the harness instance)
+pub static mut ERR_KIND: u8 = 0;
 
 pub fn install(sc: &C01, fail_at: usize, flags: Flags) {
     unsafe {
@@ -46,6 +48,7 @@ pub fn install(sc: &C01, fail_at: usize, flags: Flags) {
             s.opaque("parameters", true, true);
             // concrete per harness instance (see Flags)
             stubs::PARSE[i].ok = i != fail_at;
+            stubs::PARSE[i].err_kind = ERR_KIND;
             stubs::PARSE[i].obj = s;
             i += 1;
         }
@@ -280,6 +283,33 @@ handle_harness!(c01_k1_d, 8, 1, M1, b"t", NOFAIL, NOFLAGS, [D, D, D]);
 handle_harness!(c01_k1_n, 8, 1, M1, b"t", NOFAIL, NOFLAGS, [NO, D, D]);
 handle_harness!(c01_k1_e, 8, 1, M1, b"t", NOFAIL, NOFLAGS, [E, D, D]);
 handle_harness!(c06_k1_malformed, 8, 1, M1, b"t", 0, NOFLAGS, [D, D, D]);
+
+macro_rules! malformed_kind_harness {
+    ($name:ident, $k:expr, $data:expr, $tail:expr, $fail:expr, $kind:expr) => {
+        #[kani::proof]
+        #[kani::unwind(8)]
+        #[kani::stub(core::slice::memchr::memchr, stubs::naive_memchr)]
+        #[kani::stub(core::slice::memchr::memrchr, stubs::memrchr_guarded)]
+        #[kani::stub(std::io::BufReader::new, stubs::small_bufreader)]
+        #[kani::stub(serde_json::to_string, stubs::to_string)]
+        #[kani::stub(serde_json::to_value, stubs::to_value)]
+        #[kani::stub(serde_json::from_slice, stubs::from_slice)]
+        #[kani::stub(alloc::fmt::format, stubs::format)]
+        #[kani::stub(alloc::string::String::from_utf8_lossy, stubs::from_utf8_lossy)]
+        #[kani::stub(std::hash::RandomState::new, stubs::fixed_random_state)]
+        #[kani::stub(crate::VarlinkService::call, dispatch_model)]
+        #[kani::stub(crate::Call::reply_interface_not_found, inf_model)]
+        fn $name() {
+            unsafe { ERR_KIND = $kind };
+            check_stream($k, $data, $tail, $fail, NOFLAGS, [D, D, D]);
+        }
+    };
+}
+// the malformed message is a truncated document (serde_json error category Eof)
+malformed_kind_harness!(c06_k1_truncated, 1, M1, b"t", 0, 1);
+malformed_kind_harness!(c06_k2_first_truncated, 2, M2, b"t", 0, 1);
+malformed_kind_harness!(c06_k2_second_truncated, 2, M2, b"t", 1, 1);
+
 handle_harness!(c01_k1_d_flags, 8, 1, M1, b"t", NOFAIL, SOMEFLAGS, [D, D, D]);
 handle_harness!(c01_k2_dd, 8, 2, M2, b"t", NOFAIL, NOFLAGS, [D, D, D]);
 handle_harness!(c01_k2_nd, 8, 2, M2, b"t", NOFAIL, NOFLAGS, [NO, D, D]);
